@@ -905,7 +905,7 @@ func TestVerif_C18_Conc(t *testing.T) {
 	m.Assume("concurrent Switch/Close is outside the statement and is not exercised")
 
 	runs := m.N(50, 2000)
-	total := m.N(4000, 1200) // contexts per run, spread over the run's goroutines
+	total := m.N(3600, 1200) // contexts per run, spread over the run's goroutines
 	pid := strconv.Itoa(os.Getpid())
 	own := &owners{other: map[int]uint32{}}
 	sizes := []int{2, 3, 4, 8, 16, 16, 16, 32, 64, 16, 5, 16, 24, 16, 48, 16}
